@@ -22,16 +22,16 @@ import (
 )
 
 type msScen struct {
-	Prop    string     `json:"prop"`
-	Cfg     muxCfg     `json:"cfg"`
-	Warm    int        `json:"warm"`   // video frames (or audio writes) fed sequentially before the threads start
-	Writes  int        `json:"writes"` // frames fed by the writer thread
-	Close   bool       `json:"close"`  // writer calls Close at the end
-	Params  int        `json:"params"` // frame index (relative to the writer's first) that switches the parameter set; 0 none
-	Reqs    [][]string `json:"reqs"`   // per requester thread, request symbols
-	Bound   int        `json:"bound"`
-	Shard   int        `json:"shard"`
-	Shards  int        `json:"shards"`
+	Prop   string     `json:"prop"`
+	Cfg    muxCfg     `json:"cfg"`
+	Warm   int        `json:"warm"`   // video frames (or audio writes) fed sequentially before the threads start
+	Writes int        `json:"writes"` // frames fed by the writer thread
+	Close  bool       `json:"close"`  // writer calls Close at the end
+	Params int        `json:"params"` // frame index (relative to the writer's first) that switches the parameter set; 0 none
+	Reqs   [][]string `json:"reqs"`   // per requester thread, request symbols
+	Bound  int        `json:"bound"`
+	Shard  int        `json:"shard"`
+	Shards int        `json:"shards"`
 }
 
 func (s msScen) name() string {
@@ -47,13 +47,13 @@ func (s msScen) name() string {
 // units in between. frameMS is half the part duration in Low-Latency mode, else a quarter of the segment duration.
 
 type msFeeder struct {
-	mi     *muxInst
-	vtrack int
+	mi      *muxInst
+	vtrack  int
 	frameMS int64
-	gop    int
-	next   int   // next video frame index
-	audioN []int // per audio track: next access unit index
-	seq    int
+	gop     int
+	next    int   // next video frame index
+	audioN  []int // per audio track: next access unit index
+	seq     int
 }
 
 func newFeeder(mi *muxInst) *msFeeder {
@@ -116,33 +116,33 @@ func (f *msFeeder) feed(switchParams bool) error {
 }
 
 type msReqLog struct {
-	Thread   string
-	Sym      string
-	URL      string
-	Issued   int // writer progress when issued
-	Done     int // writer progress when completed (-1: never completed)
-	Finished bool
-	Status   int
-	CT       string
-	Body     []byte
+	Thread         string
+	Sym            string
+	URL            string
+	Issued         int // writer progress when issued
+	Done           int // writer progress when completed (-1: never completed)
+	Finished       bool
+	Status         int
+	CT             string
+	Body           []byte
 	WaitingAtClose bool
 }
 
 type msState struct {
-	mu        sync.Mutex // protects the harness's own bookkeeping (free-running pass)
-	sc        msScen
-	mi        *muxInst
-	feeder    *msFeeder
-	dir       string
-	progress  int
+	mu         sync.Mutex // protects the harness's own bookkeeping (free-running pass)
+	sc         msScen
+	mi         *muxInst
+	feeder     *msFeeder
+	dir        string
+	progress   int
 	closeStart bool
-	closed    bool
-	writeErr  error
-	logs      []*msReqLog
-	epilogue  []*msReqLog
-	epiPanic  string
-	filesLeft []string
-	snaps     []msSnap // muxer state after warm-up and after every write of the writer
+	closed     bool
+	writeErr   error
+	logs       []*msReqLog
+	epilogue   []*msReqLog
+	epiPanic   string
+	filesLeft  []string
+	snaps      []msSnap // muxer state after warm-up and after every write of the writer
 }
 
 type msSnap struct {
